@@ -646,7 +646,9 @@ pub fn ev_hostile(w: &mut World, target: &HostileTarget, mutation: &HostileMut, 
     PEAK.store(start, Ordering::Relaxed);
     LARGEST.store(0, Ordering::Relaxed);
     let budget = 512 * bytes.len() + (1 << 20);
-    let users: Vec<usize> = (0..w.users.len()).filter(|u| w.users[*u].usk.is_some()).take(3).collect();
+    // parsed values are used with up to 3 keys; with very large keys one is enough
+    let big_keys = w.users.iter().filter_map(|u| u.usk.as_ref()).any(|(_, m)| m.rights.len() * m.rights.values().map(|c| c.len()).max().unwrap_or(1) > 64);
+    let users: Vec<usize> = (0..w.users.len()).filter(|u| w.users[*u].usk.is_some()).take(if big_keys { 1 } else { 3 }).collect();
     // stored encapsulations a parsed key is tried on: the first classic, the first hybridized,
     // then others (at most 4)
     let mut slots: Vec<usize> = vec![];
@@ -697,7 +699,10 @@ pub fn ev_hostile(w: &mut World, target: &HostileTarget, mutation: &HostileMut, 
                     let _ = k.tracing_level();
                     let _ = k.count();
                     stage = "decaps";
-                    for s in &slots {
+                    // a parsed key with very many secrets is tried on the classic and the
+                    // hybridized object only
+                    let n_slots = if k.count() > 64 { 2 } else { slots.len() };
+                    for s in slots.iter().take(n_slots) {
                         if let Ok(x) = XEnc::deserialize(&w.slots[*s].orig) {
                             let _ = w.auth.cc.decaps(&k, &x);
                         }
@@ -804,7 +809,10 @@ pub fn sweep_hostile(w: &mut World, target: &HostileTarget, parser: &Parser, str
             HostileTarget::Random { .. } => "random",
         };
         let fields = wire::field_spans(kind, &base).len();
-        'f: for k in 0..fields {
+        // the field loops get the same call budget as the position loops
+        let budget = (base.len() * 4 / stride).max(200);
+        let fstride = (fields * 22).div_ceil(budget).max(1);
+        'f: for k in (0..fields).step_by(fstride) {
             for val in BOUNDARY {
                 ev_hostile(w, target, &HostileMut::Field { k, val: *val }, parser);
                 w.outcomes.pop();
@@ -814,7 +822,7 @@ pub fn sweep_hostile(w: &mut World, target: &HostileTarget, parser: &Parser, str
                 }
             }
         }
-        'p: for k in 0..fields {
+        'p: for k in (0..fields).step_by(fstride) {
             for (delta, pad) in [(0u64, 1u8), (0, 2), (1, 1), (1, 2), (2, 2), (3, 3)] {
                 ev_hostile(w, target, &HostileMut::FieldPadded { k, delta, pad }, parser);
                 w.outcomes.pop();
